@@ -674,6 +674,18 @@ bool Instance::configure_tx_txin() {
             fprintf(stderr, "error: witness program was passed an empty witness\n");
             return false;
         }
+        // a scriptSig / scriptPubKey with a push running past its end fails when it is reached, but it cannot be listed or stepped through
+        // operation by operation (the listing dropped the undecodable rest, the marker pointed elsewhere): refuse it like an undecodable
+        // script given directly
+        for (const CScript* sc : {(const CScript*)&scriptSig, (const CScript*)&scriptPubKey}) {
+            CScript::const_iterator it = sc->begin();
+            while (it < sc->end()) {
+                if (!sc->GetOp(it, opcode, pushval)) {
+                    fprintf(stderr, "invalid script (%s cannot be decoded: a push runs past its end): %s\n", sc == &scriptSig ? "sig script" : "script pub key", HexStr(*sc).c_str());
+                    return false;
+                }
+            }
+        }
         sigver = SigVersion::BASE;
         script = scriptSig;
         successor_script = scriptPubKey;
